@@ -254,7 +254,7 @@ func (s *Server) writeJSON(rel string, v interface{}) error {
 
 func defaultClusterConf() map[string]map[string]interface{} {
 	return map[string]map[string]interface{}{
-		"BackendConf": {"TimeoutConnSrv": 2000, "TimeoutResponseHeader": 50000,
+		"BackendConf": {"TimeoutConnSrv": 20000, "TimeoutResponseHeader": 50000,
 			"MaxIdleConnsPerHost": 0, "RetryLevel": 0},
 		"CheckConf": {"Schem": "tcp", "FailNum": 1000, "CheckInterval": 1000},
 		"GslbBasic": {"CrossRetry": 0, "RetryMax": 2},
